@@ -155,6 +155,7 @@ pub struct Driver {
     pub kept: Vec<StunClientEvent>,
     /// FINGERPRINT value of the latest inbound message with a valid one, per transaction id
     pub last_fp: HashMap<i64, [u8; 4]>,
+    priming: bool,
 }
 
 /// attribute type codes of the application attribute kinds (in the order given)
@@ -240,6 +241,7 @@ impl Driver {
             keep_events: false,
             kept: Vec::new(),
             last_fp: HashMap::new(),
+            priming: false,
         };
         let snap = d.snap_json();
         d.lines
@@ -637,6 +639,25 @@ impl Driver {
                 self.record("timeout", json!({}), res, -1);
             }
             Step::Recv { at, msg } => {
+                if msg.hostile["kind"] == "reuse_fp" && msg.raw.is_none() && !self.priming {
+                    // the crafted case needs an earlier, valid message with the same id: an indication
+                    // carrying the id of the targeted request (it is delivered and finishes nothing)
+                    self.priming = true;
+                    let prim = Step::Recv { at: at.clone(), msg: MsgSpec {
+                        target: msg.target.clone(), class: obs::CLASS_INDICATION, method: None, code: 0,
+                        auth: if self.cfg.mech == "st" { "mi".to_string() } else { "none".to_string() },
+                        fp: "valid".to_string(), lt: json!({}), raw: None, hostile: Value::Null } };
+                    self.step(&prim);
+                    self.priming = false;
+                    if self.dead {
+                        return;
+                    }
+                    let again = Step::Recv { at: TimeSpec::Dt(0), msg: msg.clone() };
+                    self.priming = true;
+                    self.step(&again);
+                    self.priming = false;
+                    return;
+                }
                 let resume = self.now_us;
                 self.now_us = self.resolve_time(at, false);
                 let now = self.instant();
